@@ -47,6 +47,52 @@ def periodic_replayer(extra, path):
     return None
 
 
+def random_periodic_trace(args):
+    """A seeded random long run of a real PeriodicCallback: periods up to 60 ticks, wall clock running
+    with, slower than, ahead of and behind the loop's clock, callbacks of every kind."""
+    tid, seed, length = args
+    rng = random.Random(seed)
+    cfg = {"p": rng.choice([1, 2, 3, 5, 7, 10, 16, 25, 60]), "kind": rng.choice(["sync", "raise", "coro", "coro", "cororaise"]),
+           "w0": rng.choice([0, 3, 100, 4000])}
+    real = D.PeriodicReal(cfg, variant=rng.randrange(len(D.PERIODIC_SCALES)))
+    p = cfg["p"]
+    ev = []
+    mode = "sync"
+    try:
+        for _ in range(length):
+            running = real.pc.is_running()
+            acts = ["tick"] * 8
+            if not running and real.inflight == 0:
+                acts += ["start"] * 4
+            if running:
+                acts += ["stop"]
+            else:
+                acts += ["stop"] if rng.random() < 0.2 else []
+            if real.inflight:
+                acts += ["done"] * 3
+            a = rng.choice(acts)
+            args_ = []
+            if a == "tick":
+                if rng.random() < 0.15:
+                    mode = rng.choice(["sync", "sync", "slow", "fast", "jumpy"])
+                dm = rng.choice([0, 1, 1, 2, p // 2, p, p + 1, 2 * p, 3 * p + 1])
+                if mode == "sync":
+                    dw = dm
+                elif mode == "slow":
+                    dw = dm - rng.choice([0, 1, min(dm, 2)]) if dm else 0
+                elif mode == "fast":
+                    dw = dm + rng.choice([0, 1, p])
+                else:
+                    dw = rng.choice([-2 * p - 1, -p, -1, 0, 1, p, 5 * p + 2])
+                dw = max(dw, -real.wall, -1000)
+                args_ = [dw, dm]
+            obs = real.step(a, args_)
+            ev.append({"a": a, "args": args_, "obs": obs})
+        return {"id": tid, "cfg": cfg, "ev": ev}
+    finally:
+        real.close()
+
+
 def run(ctx):
     global _NVAR
     _NVAR = ctx.pick(2, len(D.PERIODIC_SCALES))
@@ -54,6 +100,10 @@ def run(ctx):
     paths = ctx.gen_paths("loop", "Gen_Periodic", "Gen_Periodic.cfg", overrides={"L": ctx.pick(5, 6)})
     ctx.replay(paths, periodic_replayer, label="s2c-periodic",
                nontrivial=lambda e, p: any(s["act"] == "tick" for s in p) and any(s["act"] == "start" for s in p))
+    n = ctx.pick(300, 10000)
+    traces = framework.pool_map(random_periodic_trace, [(i + 1, ctx.seed * 1000003 + i, ctx.pick(80, 150)) for i in range(n)])
+    ctx.validate("loop", "Trace_Periodic", "Trace_Periodic.cfg", traces, label="c2s-periodic",
+                 sig_fn=lambda t, bad, l: {"spec": "Periodic", "kind_": t["cfg"]["kind"]})
     ctx.cov["exhaustive"] = True
     ctx.cov["rule"] = ("paths: every sequence of start/stop/done/tick(dw, dm) over the Gen tick set (clocks in step, wall slower, "
                        "wall backwards, wall jumping ahead) up to the bound, per period and callback kind; distinct = distinct "
